@@ -161,7 +161,15 @@ BAD_PARAMS = [
 
 
 ODD_VALUES = ["{1: x}", "{~: y}", "{[a]: b}", "{true: 1}", "[]", "{}", '""', "null", "~", "0", "-1", "true", "[[]]", '[""]', '{"": ""}', "1.5", '"' + "x" * 5000 + '"', '" "', '"\\n"', "[1, [2, [3]]]",
-              '"{{"', '"{{ }}"', '"{% %}"', "!!binary aGk=", "[null]", '"é"', "0x10", "1e400", ".inf", '"-"', '"="']
+              '"{{"', '"{{ }}"', '"{% %}"', "!!binary aGk=", "[null]", '"é"', "0x10", "1e400", ".inf", '"-"', '"="',
+              # strings holding JSON/YAML text, and templates that render to something that is not a string
+              '"[]"', '"{}"', '"null"', '"[[]]"', "'[\"\"]'", '["[]"]', '"{{ [] }}"', '"{{ {} }}"', '"{{ none }}"', '"{{ [[]] }}"', '"{{ 1 }}"', '"{{ true }}"',
+              '["{{ [] }}"]', '"{{ omit }}"', '"{{ undefined_variable }}"']
+# lookups with boundary arguments (find() shares the module's parameter handling)
+LOOKUP_EXPRS = ["find({'paths': '[]'})", "find({'paths': []})", "find({'paths': ['[]']})", "find({})", "find()", "find(1)", "find('x')", "find([])", "find(none)",
+                "find({'paths': 'ROOT', 'size': '-1'})", "find({'paths': 'ROOT', 'patterns': '('})", "find({'paths': 'ROOT', 'file_type': 'x'})", "find({'paths': 'rel'})",
+                "find({'paths': 'ROOT', 'recurse': 'yes'})", "find({'paths': 'ROOT', 'nosuch': 1})", "find({'paths': 'ROOT'}, 1)", "find({'paths': {'a': 1}})",
+                "find({'paths': 'ROOT', 'excludes': []})", "find({'paths': 'ROOT', 'patterns': ['[]']})"]
 TASK_KEYWORDS = ["when", "changed_when", "loop", "register", "vars", "ignore_errors", "name", "check_mode", "become", "become_user"]
 MODULE_PARAMS = {
     "copy": ["content", "src", "dest", "mode"], "file": ["path", "state", "mode"], "template": ["src", "dest", "mode"],
@@ -184,6 +192,9 @@ CLI_ARGS = [["-e", "=v"], ["-e", "="], ["-e", "k="], ["-e", "k=v=w"], ["-e", " =
             ["-e", "A=1", "-e", "A=2", "-e", "=3"], ["-u", ""], ["-u", "é"], ["-b", "-u", "nosuchuser"], ["-b", "-u", "-1"], ["-b", "-u", "99999999999"],
             ["-vvvvvvvvvvvvvvvvvvvv"], ["-" + "v" * 300], ["-c", "-d"], ["--output", "raw", "--output", "ansible"], ["-s", ""], ["-s", "- debug:\n    msg: inline"],
             ["-s", "{{"], ["-s", "\x01"], ["-e", "RUST_BACKTRACE="], ["-e", "PATH="], ["-e", "HOME="], ["-e", "LANG=\udcff".encode("utf-8", "surrogateescape").decode("utf-8", "surrogateescape")]]
+
+UNICODE_ARGV = [["-€oX"], ["-éoX"], ["-fé"], ["-f€oX"], ["-ééoX"], ["-oé"], ["-o", "é"], ["--é"], ["--out=é"], ["--é=x"], ["-é"], ["-fö", "a"], ["a", "-q€"], ["-✓✓"],
+                ["--ou€"], ["-o=é"], ["-\u0301"], ["--\U0001F600"], ["-f\U0001F600o", "v"]]
 
 USAGE_CHARS = ["<", ">", "a", "B", "-", "_", "+", "[", "]", "(", ")", "|", ".", "{", "}", "=", "#"]
 
@@ -232,17 +243,17 @@ def c13(run, replay=None):
     for bp in BAD_PARAMS:
         items.append(("bad-parameter", dict(text="#!/usr/bin/env rash\n" + bp + "- debug:\n    msg: end\n", argv=[])))
     bs = boundary_scripts()
-    if run.tier == "quick":
-        bs = rng.sample(bs, 900)
     for b in bs:
         items.append(("boundary-value", dict(text=b, argv=[])))
+    for le in LOOKUP_EXPRS:
+        items.append(("lookup", dict(text="#!/usr/bin/env rash\n- debug:\n    msg: \"{{ %s }}\"\n- debug:\n    msg: x\n  loop: \"{{ %s }}\"\n  ignore_errors: true\n" % (le, le), argv=[])))
     for sp in SPECIAL_SCRIPTS:
         items.append(("special-script", dict(text=sp, argv=[])))
         items.append(("special-script", dict(text=sp, argv=["--", "x"])))
     for env in [{"VP_BAD": b"\xff\xfe".decode("utf-8", "surrogateescape")}, {"VP_EMPTY": ""}, {"VP_LONG": "x" * 100000}, {"RASH_LOG_LEVEL": "\xff".encode("latin1").decode("utf-8", "surrogateescape")}]:
         items.append(("environment", dict(text="#!/usr/bin/env rash\n- debug:\n    msg: \"{{ env | length }}\"\n", argv=[], env=env)))
-    for argv in [["--", "-"], ["--", "--"], ["--", "=", "-=", "--="], ["--", ""], ["--", "é" * 5000], ["--", "-" * 3000], ["--"] + ["w"] * 300]:
-        items.append(("argv", dict(text="#!/usr/bin/env rash\n#\n# Usage: prog [options] [<x>...]\n#\n# Options:\n#   -f  f\n#\n- debug:\n    msg: \"{{ x | default('') }}\"\n", argv=argv)))
+    for argv in [["--", "-"], ["--", "--"], ["--", "=", "-=", "--="], ["--", ""], ["--", "é" * 5000], ["--", "-" * 3000], ["--"] + ["w"] * 300] + [["--"] + a for a in UNICODE_ARGV]:
+        items.append(("argv", dict(text="#!/usr/bin/env rash\n#\n# Usage: prog [options] [<x>...]\n#\n# Options:\n#   -f  f\n#   -o, --output=<file>  o\n#   -v  v\n#\n- debug:\n    msg: \"{{ x | default('') }}\"\n", argv=argv)))
 
     # rash's own command line: every option with boundary values (K26: `-e =v`)
     plain = "#!/usr/bin/env rash\n- debug:\n    msg: \"{{ env | length }}\"\n"
@@ -269,7 +280,12 @@ def c13(run, replay=None):
     base_docs = [D.script_text(ls, wo) for ls, wo in D.enum_usages("quick", rng)[:300:3]]
     nd = 600 if run.tier == "quick" else 10000
     for i in range(nd):
-        docs.append((mutate(rng, rng.choice(base_docs)), rng.choice([[], ["a"], ["a", "v"], ["-f", "v"], ["--", "x"], ["-fo"], ["--out="], ["-o"], ["é"]])))
+        docs.append((mutate(rng, rng.choice(base_docs)), rng.choice([[], ["a"], ["a", "v"], ["-f", "v"], ["--", "x"], ["-fo"], ["--out="], ["-o"], ["é"]] + UNICODE_ARGV)))
+    # multi-byte characters inside stacked short options, option names and values (byte offsets vs characters)
+    for ls, wo in D.enum_usages("quick", rng)[:300:10]:
+        if wo:
+            for a in UNICODE_ARGV:
+                docs.append((D.script_text(ls, wo), a))
     # every usage word over the characters the usage syntax gives a meaning to (K25: `<aB` is classified as a
     # positional by its uppercase tail and has no closing `>`): exhaustive up to length 3, sampled beyond
     words = usage_words(rng, run.tier)
